@@ -140,8 +140,9 @@ def canon_loaded(lex, v):
     """Canonical picture of one lexicon of a loaded (exported) resource."""
     ge11 = v != '1.0'
     out = {
-        'attrs': {k: (lex.get(k) or None) for k in ('id', 'label', 'language', 'email',
-                                                    'license', 'version', 'url', 'citation')},
+        'attrs': {k: (lex.get(k) if k in ('id', 'version') else (lex.get(k) or None))
+                  for k in ('id', 'label', 'language', 'email', 'license', 'version', 'url',
+                            'citation')},
         'meta': lmeta(lex), 'entries': {}, 'senses': {}, 'synsets': {},
     }
     if ge11:
